@@ -2,12 +2,20 @@ def _nontrivial(rec):
     # a case is non-trivial when the model produced a full observation in which at least one of the
     # deposit / implicit-input figures is a positive number (not an error, not zero)
     m = rec["model"]
-    if not m.startswith("ok "):
+    if not (m.startswith("ok ") or m.startswith("ovf ")):
         return False
     f = dict(x.split("=", 1) for x in m.split(" ")[1:] if "=" in x)
     return any(f.get(k, "0") not in ("0", "err", "-", "builderr") for k in ("hd", "hi", "bd", "bi"))
 
 
+# When a fix of fixes/C20-*.patch is committed in /repo:
+#   1. coq/Deposits/Deposits.v: set the matching switch to false
+#        fixes/C20-pool-retirement-refund.patch      -> helper_refunds_pool_retirement := false
+#        fixes/C20-deposit-ignores-proposals.patch   -> helper_ignores_proposals := false
+#      (model, known-class predicate and judge all read the switch; every theorem of Props/C20.v is proved for both
+#      values, the *_refuted theorems speak about the `_gen true` variants and stay valid);
+#   2. known_findings.d/C20.json: status "known" -> "fixed" + "commit": <sha> for that entry; python3 gen_manifest.py;
+#   3. nothing else: the corpus witnesses w0-w2 must then hold (verified in a scratch worktree for all four combinations).
 CFG = {
     "level_text": "Coq proofs (closed under the global context) that the model of the stand-alone helpers (utils.rs get_deposit / "
                   "get_implicit_input) and of the builder figures (CertificatesBuilder deposit/refund tables, WithdrawalsBuilder and "
